@@ -142,7 +142,7 @@ fn replay(_ctx: &Ctx, group: &str, case: &Value) -> CaseResult {
 pub fn def() -> PropDef {
     PropDef {
         id: "C02",
-        rule: "Same case type and generators as C01 (payload description + encoder feeding plan with cuts, input methods and drain actions), plus a generator that places FE FD across the last position of the 252-byte and 64008-byte chunks, plus the power-of-two-aligned group (FE FD after gaps of k*2^p-1+d bytes, p = 6..16, counted from the input start, the end of the 252-byte chunk or the previous stuff sequence; half of the cases fed in one call), plus a complete length sweep 0..600 and 252+k*64008+{-2..2} with three fillings. Oracles: (0) hcobs::find_stuff_sequence returns the first FE FD of the input, (a) no FE FD anywhere in early-drained ++ finish() bytes, (b) those bytes equal the output of one encode_copy call on a fresh Encoder, (c) length <= len + 1 + 2*ceil(len/64008). Non-trivial: >= 2 calls with >= 2 distinct input methods, or FE at the last position of a full chunk; for the sweep, length >= 252. Distinct: hash of the serialised case. The small-scope group enumerates all strings over {FE,FD,00} up to max_len x four tiny limit pairs x 2-way cuts x copy/borrow through the hcobs::verif hook.",
+        rule: "Same case type and generators as C01 (payload description + encoder feeding plan with cuts, input methods and drain actions), plus a generator that places FE FD across the last position of the 252-byte and 64008-byte chunks, plus the power-of-two-aligned group (FE FD after gaps of k*2^p-1+d bytes, p = 6..16, counted from the input start, the end of the 252-byte chunk or the previous stuff sequence; half of the cases fed in one call), plus a complete length sweep 0..600 and 252+k*64008+{-2..2} with three fillings. Scripted readers behind encode_read deliver short reads, Interrupted errors and (one step in nine) a hard error; the input bytes sit at an address 0..15 modulo 16. Oracles: (0) hcobs::find_stuff_sequence returns the first FE FD of the input, (a) no FE FD anywhere in early-drained ++ finish() bytes, (b) those bytes equal the output of one encode_copy call on a fresh Encoder, (c) length <= len + 1 + 2*ceil(len/64008). Non-trivial: >= 2 calls with >= 2 distinct input methods, or FE at the last position of a full chunk; for the sweep, length >= 252. Distinct: hash of the serialised case. The small-scope group enumerates all strings over {FE,FD,00} up to max_len x four tiny limit pairs x 2-way cuts x copy/borrow through the hcobs::verif hook.",
         assumptions: &["the single-call reference output is produced by the same Encoder (the comparison with an independent reference codec is C07)"],
         exhaustive_note: Some("small-scope-encoder and length-sweep: complete enumerations"),
         shards: |t: Tier| t.pick(8, 16),
